@@ -344,8 +344,23 @@ def install(rec, BB, ES, SH, GT, gpyreg):
             rec.es_ctx = {"cands": []}
             outcome = "ok"
             r = None
-            lbs = _c(optim_state["lb_search"]).ravel()
-            ubs = _c(optim_state["ub_search"]).ravel()
+            # the mesh-rounded box, recomputed from the hard bounds and the CURRENT search mesh exponent (not read from
+            # optim_state['lb_search'/'ub_search'], which the code maintains itself and could leave stale)
+            try:
+                b_ = rec.bads
+                sms = float(b_.options["poll_mesh_multiplier"]) ** int(optim_state["search_size_integer"])
+                lb0 = _c(optim_state["lb"]).ravel()
+                ub0 = _c(optim_state["ub"]).ravel()
+                with np.errstate(invalid="ignore"):
+                    lbs = sms * np.round(lb0 / sms)
+                    lbs = np.where(lbs < lb0, lbs + sms, lbs)
+                    ubs = sms * np.round(ub0 / sms)
+                    ubs = np.where(ubs > ub0, ubs - sms, ubs)
+                lbs = np.where(np.isfinite(lb0), lbs, lb0)
+                ubs = np.where(np.isfinite(ub0), ubs, ub0)
+            except Exception:
+                lbs = _c(optim_state["lb_search"]).ravel()
+                ubs = _c(optim_state["ub_search"]).ravel()
             try:
                 r = orig(es, u, lb, ub, func_logger, gp, optim_state, sum_rule, non_box_cons)
                 return r
